@@ -185,7 +185,7 @@ def run(ctx):
             prov = Prov(sc)
             org = prov.origins_op(cs[0].args[1])
             par = [c for c in sc.calls_to(r"^std::path::Path::parent$")]
-            ok = bool(par) and all(o == ("param", 1) or (o[0] == "const" and dict(o[1]).get("str") == "") for o in org) and \
+            ok = bool(par) and all(o == ("param", 1) or (o[0] == "const" and dict(o[1]).get("str") == "") or (o[0] == "call" and o[1].matches(r"^std::string::String::new$")) for o in org) and \
                 all(call_chain(sc, p.args[0])[1] == ("param", 1) for p in par)
             ctx.check(ok, P, "config-dir-source", "config_dir = parent directory of the --config operand (or \"\" when it has none)", cs[0].where())
     cg = CallGraph(facts)
@@ -198,14 +198,24 @@ def run(ctx):
         b = facts.one(pat)
         if not ctx.check(b is not None, P, "anchor|" + what, "%s found" % what, ""):
             continue
-        joins = b.calls_to(r"^std::path::Path::join$")
-        ok = len(joins) == 1
-        if ok:
-            J = joins[0]
-            base = call_chain(b, J.args[0])
-            k = op_const(J.args[1]) or {}
-            dirparam = [i for i in range(1, b.arg_count + 1) if b.local_ty(i) == "&str"]
-            ok = [c.name.split("::")[-1] for c in base[0]] == ["new"] and base[1][0] == "param" and base[1][1] in dirparam and k.get("str") == edit.LOCK_CONST
+        # the join may live in this function or in a private helper both lock functions share
+        holders = [b] + [facts.body(c.name) for c in b.calls if c.name and facts.body(c.name) is not None and facts.body(c.name).kind in ("Fn", "AssocFn")]
+        ok = False
+        for hb in holders:
+            for J in hb.calls_to(r"^std::path::Path::join$"):
+                base = call_chain(hb, J.args[0])
+                k = op_const(J.args[1]) or {}
+                dirparam = [i for i in range(1, hb.arg_count + 1) if hb.local_ty(i) == "&str"]
+                if [c.name.split("::")[-1] for c in base[0]] == ["new"] and base[1][0] == "param" and base[1][1] in dirparam and k.get("str") == edit.LOCK_CONST:
+                    if hb is b:
+                        ok = True
+                    else:
+                        # the helper must be given this function's directory argument
+                        for c in b.calls:
+                            if c.name == hb.id:
+                                r = call_chain(b, c.args[base[1][1] - 1])
+                                mydir = [i for i in range(1, b.arg_count + 1) if b.local_ty(i) == "&str"]
+                                ok = ok or (r[1][0] == "param" and r[1][1] in mydir and not r[0])
         ctx.check(ok, P, "lock-path|" + what, "%s: path = Path::new(<directory argument>).join(\"Breadlog.lock\")" % what, b.where())
         # every fs call in it uses that path
         prov = Prov(b)
